@@ -12,7 +12,7 @@ func init() {
 		technique: "static analysis: panic-freedom obligations (index, slice, division, unchecked assertion, explicit panic) over the peer-facing parsers, discharged by the compiler's prove pass, a linear guard prover and premise-checked exceptions; buffer typestate of the ClientHello reader",
 		run:       runC19,
 		decided: "R1 every index, slice, integer division, unchecked type assertion and explicit panic in the functions that parse peer-supplied bytes (ClientHello inspection, User-Agent version parsing, Link header parsing, FastCGI records and responses, placeholder expansion, htpasswd parsing) is shown in range by the compiler, by the guard prover, or by a listed manual argument whose premises (named dominating guards) are re-checked; " +
-			"R2 the ClientHello reader consumes bytes from its accumulation buffer only on paths where the complete record is known to be buffered (so what is recorded cannot depend on read segmentation). Since round 4: The scope includes the request matchers (Path.Matches, PathMatcher, IfMatcher). Since round 5: R2 as a table of clientHelloConn.Read over eight segmentations of one record (the parser is handed exactly the record body once), and tlsHelloListener.Accept gives every connection an empty (pooled-then-reset or fresh) buffer. Since round 6: the fastcgi handler (ServeHTTP, buildEnv, splitPos, parseAddress) is in the R1 scope; R3 a responder's Status outside 100..999 is refused; R4 a failed exchange (error, time-out, io.EOF with a half-filled response) is never answered from. Since round 7: the rewrite rules are in the R1 scope; R5 a proxy backend's status is bounded to 100..999 before WriteHeader.",
+			"R2 the ClientHello reader consumes bytes from its accumulation buffer only on paths where the complete record is known to be buffered (so what is recorded cannot depend on read segmentation). Since round 4: The scope includes the request matchers (Path.Matches, PathMatcher, IfMatcher). Since round 5: R2 as a table of clientHelloConn.Read over eight segmentations of one record (the parser is handed exactly the record body once), and tlsHelloListener.Accept gives every connection an empty (pooled-then-reset or fresh) buffer. Since round 6: the fastcgi handler (ServeHTTP, buildEnv, splitPos, parseAddress) is in the R1 scope; R3 a responder's Status outside 100..999 is refused; R4 a failed exchange (error, time-out, io.EOF with a half-filled response) is never answered from. Since round 7: the rewrite rules are in the R1 scope; R5 a proxy backend's status is bounded to 100..999 before WriteHeader. R6 no panic statement in the proxy's relay (one known finding: panic(NonHijackerError), pinned by an existing test).",
 		notDecided: "semantic accuracy of the browser heuristics; panics inside library callees on bad arguments; nil dereferences; integer overflow.",
 	})
 }
@@ -92,6 +92,7 @@ func runC19(r *Report, p *Program) {
 	c19R3(h)
 	c19R4(h)
 	c19R5(h)
+	c19R6(h)
 }
 
 // c19R2: decided as a table over read segmentations (E10, c19R2Table); the control-flow formulation (c19R2Patterns)
